@@ -8,7 +8,7 @@ import random
 from . import common as C, proggen as P, progrun as R
 
 PROP = "C08"
-MODULES = ["RuschmProofs.C08", "RuschmProofs.C08Types"]
+MODULES = ["RuschmProofs.C08", "RuschmProofs.C08Types", "RuschmProofs.BuiltinTable"]
 
 
 ORDER_PROBES = [
@@ -84,10 +84,11 @@ def run(rep, tier, rng):
             rep.violation({"what": "the effects completed before an error are not exactly those R7RS's evaluation order completes",
                            "program": forms, "form": forms[j] if j is not None else None, "expected": want, "implementation": r})
     # the whole matrix of wrong-typed arguments to builtins, each form alone on a shared interpreter (an error leaves it usable)
-    tmatrix, imatrix = P.type_fault_matrix(), P.index_fault_matrix()
-    matrix = tmatrix + imatrix
+    tmatrix, imatrix, amatrix = P.type_fault_matrix(), P.index_fault_matrix(), P.arity_fault_matrix()
+    matrix = tmatrix + imatrix + amatrix
     kind_of = {f: "type" for f in tmatrix}
     kind_of.update({f: "vectorIndex" for f in imatrix})
+    kind_of.update({f: "arity" for f in amatrix})
     mcases = [("m%d" % (i // 200), "prog", ["std"] + matrix[i:i + 200] + ["(+ 1 2)"]) for i in range(0, len(matrix), 200)]
     mi, mm = C.run_hx(mcases), C.run_driver(mcases)
     for cid, _, f in mcases:
@@ -101,6 +102,7 @@ def run(rep, tier, rng):
             if not (g == want or g.startswith(want + " ")):
                 rep.violation({"what": "a builtin given an argument of the wrong type does not stop with a type error" if want == "E type" else
                                        "a vector index outside the vector does not stop with an index error" if want == "E vectorIndex" else
+                                       "a native procedure called with a number of arguments it does not admit does not stop with an arity error" if want == "E arity" else
                                        "a form after the failing ones is not evaluated normally",
                                "form": form, "expected": want, "implementation": g, "model": b[j] if j < len(b) else "?"})
             elif j < len(b) and R.norm_result(g) != R.norm_result(b[j]):
@@ -117,7 +119,8 @@ def main(tier, seed):
                        "apply, ticking sub-expressions) with ONE injected faulty form: 8 fault kinds x 6 calling contexts "
                        "(direct, tail, nested tail if, apply, inside a library procedure's callback, operand); plus the complete matrix of "
                        "wrong-typed arguments (every numeric builtin x arity x position x 4 offending values x direct/apply/map, pair and "
-                       "vector accessors) and of out-of-range vector indices (lengths 0-3, every index just outside on either side); distinct = "
+                       "vector accessors) and of out-of-range vector indices (lengths 0-3, every index just outside on either side) and of wrong argument counts (every native procedure, one "
+                       "too few / one and two too many, direct / apply / tail); distinct = "
                        "distinct (kind, context, faulty form) triples")
     ok = C.standard_proof_phase(rep, MODULES, directed_search=lambda r: run(r, tier, rng))
     if ok:
